@@ -628,3 +628,65 @@ Proof.
                            (arr_of l segs virt) (arr_of_ok l segs Hwf virt) (arr_of_rel l segs Hwf virt) z addr Hr).
   - destruct Hs as [E1 E2]. destruct Hsame as [E3 E4]. split; congruence.
 Qed.
+
+(** * the highest page frame *)
+Lemma fold_max_perm {A} (f : A -> N) (l l' : list A) :
+  Permutation l l' -> forall m, fold_left (fun m x => N.max m (f x)) l m = fold_left (fun m x => N.max m (f x)) l' m.
+Proof.
+  induction 1 as [| x l l' Hp IH | x y l | l l' l'' H1 IH1 H2 IH2]; intro m; cbn [fold_left].
+  - reflexivity.
+  - apply IH.
+  - f_equal. lia.
+  - now rewrite IH1.
+Qed.
+
+Lemma fold_loads f g : forall segs off m,
+  (forall s o, g (to_ls s o) = f s) ->
+  fold_left (fun m x => N.max m (g x)) (fst (split_segs segs off)) m =
+  fold_left (fun m s => if sg_type s =? 1 then N.max m (f s) else m) segs m.
+Proof.
+  induction segs as [| s t IH]; intros off m Hfg; [reflexivity |].
+  cbn [split_segs fold_left]. specialize (IH (off + sg_gap s + sg_filesz s)).
+  destruct (split_segs t (off + sg_gap s + sg_filesz s)) as [lo no]. cbn [fst] in IH.
+  destruct (sg_type s =? 1).
+  - cbn [fst fold_left]. rewrite Hfg. now apply IH.
+  - destruct (sg_type s =? 4); cbn [fst]; now apply IH.
+Qed.
+
+Theorem elf_max_pfn_spec l segs shift :
+  elf_wf l segs ->
+  (forall s, In s segs -> is_load s -> sg_phys s + sg_memsz s + 2^shift <= 2^64) ->
+  elf_max_pfn (expected l segs) shift = spec_elf_max_pfn segs (2^shift).
+Proof.
+  intros Hwf Hnw. unfold elf_max_pfn, spec_elf_max_pfn. cbn [es_sorted expected].
+  rewrite (fold_max_perm _ _ _ (sort_perm ls_phys (loads l segs)) 0).
+  unfold loads.
+  (* element-wise: no wrap-around *)
+  assert (Hel : forall a, In a (fst (split_segs segs (data_start l segs))) ->
+            N.shiftr (Wrap64.wsub (Wrap64.wadd (Wrap64.wadd (ls_phys a) (ls_memsz a)) (N.shiftl 1 shift)) 1) shift
+            = (ls_phys a + ls_memsz a + 2^shift - 1) / 2^shift).
+  { intros a Ha. destruct (split_segs_in segs _ a Ha) as [s [o [Hin [Hl ->]]]].
+    specialize (Hnw s Hin Hl). cbn [to_ls ls_phys ls_memsz].
+    assert (Hp : 0 < 2^shift) by (apply N.neq_0_lt_0, N.pow_nonzero; discriminate).
+    rewrite N.shiftl_1_l.
+    rewrite (wadd_eq (sg_phys s) (sg_memsz s)) by lia.
+    destruct (N.eq_dec (sg_phys s + sg_memsz s + 2^shift) (2^64)) as [E | NE].
+    - (* the sum is exactly 2^64: wraps to 0, and 0 - 1 wraps to 2^64 - 1 *)
+      unfold Wrap64.wadd, Wrap64.wsub, Wrap64.w. rewrite W_is, E, N.mod_same by discriminate.
+      rewrite (N.mod_small 1) by reflexivity. rewrite N.add_0_l, N.mod_small by lia.
+      now rewrite N.shiftr_div_pow2.
+    - rewrite wadd_eq by lia. rewrite wsub_eq by lia. now rewrite N.shiftr_div_pow2. }
+  transitivity (fold_left (fun m x => N.max m ((ls_phys x + ls_memsz x + 2^shift - 1) / 2^shift))
+                          (fst (split_segs segs (data_start l segs))) 0).
+  - generalize 0. revert Hel. generalize (fst (split_segs segs (data_start l segs))).
+    induction l0 as [| a t IH]; intros Hel m; [reflexivity |]. cbn [fold_left].
+    rewrite (Hel a (or_introl eq_refl)). apply IH. intros x Hx. apply Hel. now right.
+  - apply (fold_loads (fun s => (sg_phys s + sg_memsz s + 2^shift - 1) / 2^shift)). reflexivity.
+Qed.
+
+Theorem elf_max_pfn_full l segs shift :
+  elf_wf l segs ->
+  (forall s, In s segs -> is_load s -> sg_phys s + sg_memsz s + 2^shift <= 2^64) ->
+  elf_open (read_files [encode_elf l segs]) 1 = Ok (expected l segs) /\
+  elf_max_pfn (expected l segs) shift = spec_elf_max_pfn segs (2^shift).
+Proof. intros Hwf Hnw. split; [exact (elf_open_spec l segs Hwf) | exact (elf_max_pfn_spec l segs shift Hwf Hnw)]. Qed.
